@@ -134,7 +134,7 @@ func Fresh(prefix string, s Sort) *Term {
 	return Var(fmt.Sprintf("%s!%d", prefix, TS.fresh), s)
 }
 func App(name string, s Sort, args ...*Term) *Term {
-	if concreteOn && len(args) > 0 {
+	if concreteOn && (len(args) > 0 || name == "gzero") {
 		if r := foldApp(name, s, args); r != nil {
 			return r
 		}
